@@ -212,6 +212,33 @@ func nativeValidate(prog *Program, mod, pkg string, results []*HarnessResult, ti
 			}
 		}
 	}
+	// witnesses of schedule-dependent harnesses may need another native run too
+	witnessOK := func(w *Witness, nres *nativeResult) bool {
+		return nres != nil && (nres.Status == "ok" || nres.Status == "race") && equalStrs(nres.Obs, w.Obs) && hasLabel(nres.Labels, w.Label)
+	}
+	for try := 0; try < 3; try++ {
+		var again []nativeCase
+		for _, r := range results {
+			for i, w := range r.Witnesses {
+				id := fmt.Sprintf("w|%s|%d", r.Spec.Name, i)
+				if !witnessOK(w, out[id]) {
+					again = append(again, nativeCase{ID: fmt.Sprintf("%s|t%d", id, try), Harness: r.Spec.Name, Nondet: w.Nondet, Tier: tier})
+				}
+			}
+		}
+		if len(again) == 0 {
+			break
+		}
+		more := nr.run(again, 6*time.Second)
+		for _, r := range results {
+			for i, w := range r.Witnesses {
+				id := fmt.Sprintf("w|%s|%d", r.Spec.Name, i)
+				if nres := more[fmt.Sprintf("%s|t%d", id, try)]; !witnessOK(w, out[id]) && witnessOK(w, nres) {
+					out[id] = nres
+				}
+			}
+		}
+	}
 	for _, r := range results {
 		for i, w := range r.Witnesses {
 			nres := out[fmt.Sprintf("w|%s|%d", r.Spec.Name, i)]
